@@ -11,6 +11,9 @@
 import asyncio
 import gc
 import heapq
+import os
+import signal
+import threading
 import warnings
 from asyncio import base_events, events
 
@@ -29,6 +32,18 @@ class StepCap(Exception):
 
 class Livelock(Exception):
     pass
+
+
+class _HangInterrupt(KeyboardInterrupt):
+    """Raised by the wall-clock watchdog INSIDE whatever is running. A KeyboardInterrupt subclass because asyncio lets only
+    those (and SystemExit) propagate out of a task step / a callback instead of storing them in the task."""
+
+
+WATCHDOG_S = float(os.environ.get("VERIF_EXEC_WATCHDOG_S", "45"))
+
+
+def _on_alarm(signum, frame):
+    raise _HangInterrupt()
 
 
 _recorded_warnings = []
@@ -87,6 +102,14 @@ class VLoop(base_events.BaseEventLoop):
         same_time_steps = 0
         last_time = self._vtime
         last_progress = self.progress
+        # One execution takes milliseconds. Code under test that spins WITHOUT ever yielding to the loop (a `while` loop that
+        # makes no progress) cannot be stopped by step counting: a wall-clock alarm interrupts it and the execution is
+        # reported as a livelock, like the yielding kind.
+        armed = False
+        if WATCHDOG_S > 0 and threading.current_thread() is threading.main_thread():
+            prev_handler = signal.signal(signal.SIGALRM, _on_alarm)
+            signal.setitimer(signal.ITIMER_REAL, WATCHDOG_S)
+            armed = True
         try:
             task = self.create_task(main_coro)
             while not task.done():
@@ -126,7 +149,13 @@ class VLoop(base_events.BaseEventLoop):
                     continue
                 raise Deadlock()
             return task
+        except _HangInterrupt:
+            self.hung = True
+            raise Livelock() from None
         finally:
+            if armed:
+                signal.setitimer(signal.ITIMER_REAL, 0)
+                signal.signal(signal.SIGALRM, prev_handler)
             events._set_running_loop(None)
 
     def shutdown(self):
